@@ -964,7 +964,9 @@ static void read_line_marker(Token **rest, Token *tok) {
   Token *start = tok;
   tok = preprocess(copy_line(rest, tok));
 
-  if (tok->kind != TK_NUM || tok->ty->kind != TY_INT)
+  // The line number is a digit sequence no greater than 2147483647.
+  if (tok->kind != TK_NUM || tok->ty->kind != TY_INT ||
+      tok->val < 0 || tok->val > 2147483647)
     error_tok(tok, "invalid line marker");
   start->file->line_delta = tok->val - start->line_no;
 
